@@ -5,8 +5,8 @@ CONSTANTS
   Hdrs = {"none"}
   MaxNow = 0
   Window = 3
-  Limit = 2
-  FLimit = 2
+  Limit = 1
+  FLimit = 1
   TokenCfg = TRUE
   PowOn = FALSE
   Families = {"auth"}
